@@ -198,7 +198,7 @@ func main() {
 				if f, _ := c["file"].(bool); f {
 					via = "c10-dec.gguf"
 				}
-				d := ggdump.Decode(b, hx.Int(c["max_array"]), via)
+				d := ggdump.DecodeAt(b, hx.Int(c["max_array"]), via, hx.Int(c["skip"]))
 				out := map[string]any{"dec": d}
 				if d.File != nil {
 					out["acc"] = createShowAccessors(d.File)
